@@ -442,9 +442,10 @@ def run_case(case):
         if case.get("chain") and m2 is not None:
             try:
                 Z2 = os.path.join(wd, "Z2.zip"); D3 = os.path.join(wd, "D3")
-                m2b = mx.read_model(D1, name="C04renamed")     # relative names make the files relocatable
-                res["d_renamed"] = describe(m2b)
-                res["v_renamed"] = probe(m2b, probes)
+                mren = mx.read_model(D1, name="C04renamed")    # relative names make the files relocatable
+                res["d_renamed"] = describe(mren)
+                res["v_renamed"] = probe(mren, probes)
+                m2b = mx.read_model(D1)
                 mx.zip_model(m2b, Z2)
                 res["ls_zip2"] = listing_zip(Z2)
                 m4 = mx.read_model(Z2)
